@@ -86,20 +86,54 @@ func strLit(e ast.Expr) (string, bool) {
 }
 
 func stringSlice(f *ast.File, name string) []string {
-	e := topLevelVar(f, name)
-	cl, ok := e.(*ast.CompositeLit)
-	if !ok {
-		must(fmt.Errorf("%s: not a composite literal", name))
+	return stringSliceExpr(f, name, topLevelVar(f, name), 0)
+}
+
+// a slice of string literals, or append(x, y...) / append(x, "lit", ...) / slices.Concat(x, y) of such slices
+// named at package level (the tables are sometimes assembled from parts)
+func stringSliceExpr(f *ast.File, name string, e ast.Expr, depth int) []string {
+	if depth > 8 {
+		must(fmt.Errorf("%s: definition too deep", name))
 	}
-	var out []string
-	for _, el := range cl.Elts {
-		s, ok := strLit(el)
-		if !ok {
-			must(fmt.Errorf("%s: non-literal element", name))
+	switch x := e.(type) {
+	case *ast.CompositeLit:
+		var out []string
+		for _, el := range x.Elts {
+			s, ok := strLit(el)
+			if !ok {
+				must(fmt.Errorf("%s: non-literal element", name))
+			}
+			out = append(out, s)
 		}
-		out = append(out, s)
+		return out
+	case *ast.Ident:
+		return stringSliceExpr(f, x.Name, topLevelVar(f, x.Name), depth+1)
+	case *ast.ParenExpr:
+		return stringSliceExpr(f, name, x.X, depth+1)
+	case *ast.CallExpr:
+		fn := ""
+		switch c := x.Fun.(type) {
+		case *ast.Ident:
+			fn = c.Name
+		case *ast.SelectorExpr:
+			if id, ok := c.X.(*ast.Ident); ok {
+				fn = id.Name + "." + c.Sel.Name
+			}
+		}
+		if (fn == "append" || fn == "slices.Concat") && len(x.Args) >= 1 {
+			var out []string
+			for i, a := range x.Args {
+				if s, ok := strLit(a); ok && fn == "append" && i > 0 {
+					out = append(out, s)
+					continue
+				}
+				out = append(out, stringSliceExpr(f, name, a, depth+1)...)
+			}
+			return out
+		}
 	}
-	return out
+	must(fmt.Errorf("%s: not a composite literal (nor an append / slices.Concat of such)", name))
+	return nil
 }
 
 func stringMap(f *ast.File, name string) [][2]string {
